@@ -137,6 +137,8 @@ class TDS(BaseRoutine):
         self.deltatmin = 0
         self.deltatmax = 0
         self.h = 0
+        self._t_land = None     # instant the current step was cut to (end or event time)
+        self._t_before = 0.0    # time before the current step
         self.last_pc = 0.0
         self.Teye = None
         self.qg = np.array([])
@@ -334,7 +336,7 @@ class TDS(BaseRoutine):
         dae = system.dae
 
         self.calc_h(resume=True)
-        dae.t += self.h
+        self._advance_t()
 
         logger.debug("Resuming simulation: initial step size is h=%.4fs.", self.h)
         logger.debug("Resuming from t=%.4fs.", system.dae.t)
@@ -446,7 +448,7 @@ class TDS(BaseRoutine):
                 # check if the next step is critical time
                 self.do_switch()
                 self.calc_h()
-                dae.t += self.h
+                self._advance_t()
                 dae.kcount += 1
 
                 logger.debug("Next time step advanced to t=%g", dae.t)
@@ -480,7 +482,7 @@ class TDS(BaseRoutine):
             else:
                 logger.debug("Anticipated time step t=%g did not converge", system.dae.t)
 
-                dae.t -= self.h
+                dae.set_t(self._t_before)
                 self.calc_h()
 
                 logger.debug("From t=%g, new step size h=%g ", system.dae.t, self.h)
@@ -490,7 +492,7 @@ class TDS(BaseRoutine):
                     self.busted = True
                     break
 
-                dae.t += self.h
+                self._advance_t()
 
         if self.busted:
             logger.error(self.err_msg)
@@ -626,9 +628,14 @@ class TDS(BaseRoutine):
                     self.busted = True
 
         self.h = self.deltat
+        self._t_land = None
 
-        # do not skip over the end time
-        self.h = max(min(self.h, config.tf - system.dae.t), 0)
+        # do not skip over the end time; a step that ends within rounding distance
+        # of the end time ends there (no further step of the size of one bit)
+        t_end = system.dae.t + self.h
+        if (self.h >= config.tf - system.dae.t) or (abs(t_end - config.tf) <= 8 * np.spacing(abs(config.tf))):
+            self.h = max(config.tf - system.dae.t, 0)
+            self._t_land = config.tf
 
         # skip the first switch at the exact first time step to avoid h == 0
         if self._switch_idx < system.n_switches:
@@ -637,8 +644,11 @@ class TDS(BaseRoutine):
 
         # do not skip over event switch_times
         if self._switch_idx < system.n_switches:
-            if (system.dae.t + self.h) > system.switch_times[self._switch_idx]:
-                self.h = system.switch_times[self._switch_idx] - system.dae.t
+            t_sw = system.switch_times[self._switch_idx]
+            t_end = system.dae.t + self.h
+            if (t_end > t_sw) or (abs(t_end - t_sw) <= 8 * np.spacing(abs(t_sw))):
+                self.h = t_sw - system.dae.t
+                self._t_land = t_sw
 
         if self.data_csv is not None:
             if self.k_csv + 1 < self.data_csv.shape[0]:
@@ -650,6 +660,23 @@ class TDS(BaseRoutine):
         logger.debug("Calculated TDS.h = %g", self.h)
 
         return self.h
+
+    def _advance_t(self):
+        """
+        Advance ``dae.t`` by ``self.h``.
+
+        When the step was cut to the end time or to an event time, land exactly
+        on that instant: ``t + (t_event - t)`` may miss it by one bit. The event
+        would then not be recognized, time would step back by that bit and a
+        second row would be stored for the same instant.
+        """
+        dae = self.system.dae
+        self._t_before = float(dae.t)
+
+        if (self._t_land is not None) and (self.h > 0) and (self.data_csv is None):
+            dae.set_t(self._t_land)
+        else:
+            dae.t += self.h
 
     def _calc_h_first(self):
         """
